@@ -7,6 +7,7 @@ package c14
 import (
 	"context"
 	"fmt"
+	"io"
 	"math/rand"
 	"sort"
 	"strconv"
@@ -83,9 +84,11 @@ type aconn struct {
 	maxTouched uint32
 	goaways    []uint32 // ids of the GOAWAYs written, in order
 	validN     int64    // smallest valid last-stream-id announced, -1 = none
-	poisoned   bool     // a GOAWAY that must be treated as a connection error was written
+	poisoned   bool     // a GOAWAY that must be treated as a connection error was written and not yet judged
+	poisonKey  string
 	poisonWhy  string
-	sealedAt   int // log length at the first quiescent point after the first GOAWAY, -1 = not yet
+	hadInvalid bool // some invalid GOAWAY was written on this connection (its RPCs are judged leniently)
+	sealedAt   int  // log length at the first quiescent point after the first GOAWAY, -1 = not yet
 	ended      bool
 	endJudged  bool
 }
@@ -163,21 +166,27 @@ func runClient(sc ascenario) *result {
 			defer wg.Done()
 			var msgs []string
 			st, err := fx.CC.NewStream(ctx, &grpc.StreamDesc{ClientStreams: true, ServerStreams: true}, "/verif.GA/Call")
+			ok := false
 			if err == nil {
-				if err = st.SendMsg([]byte("req-" + strconv.Itoa(i))); err == nil {
+				// SendMsg returning io.EOF only says that the stream has ended: the
+				// real status comes from RecvMsg.
+				if serr := st.SendMsg([]byte("req-" + strconv.Itoa(i))); serr == nil {
 					st.CloseSend()
-					for err == nil {
-						var m []byte
-						if err = st.RecvMsg(&m); err == nil {
-							msgs = append(msgs, string(m))
-						}
+				} else if serr != io.EOF {
+					err = serr
+				}
+				for err == nil {
+					var m []byte
+					if err = st.RecvMsg(&m); err == nil {
+						msgs = append(msgs, string(m))
 					}
 				}
+				ok = err == io.EOF // RecvMsg: io.EOF <=> status OK
 			}
 			mu.Lock()
 			r.finished, r.msgs = true, msgs
 			r.code, r.errText = status.Code(err), fmt.Sprint(err)
-			if err != nil && err.Error() == "EOF" {
+			if ok {
 				r.code = codes.OK
 			}
 			mu.Unlock()
@@ -271,12 +280,19 @@ func runClient(sc ascenario) *result {
 		goawayInFlight = false
 		res.counters["quiescent_checks"]++
 		for _, c := range snapshot() {
-			if len(c.goaways) > 0 && c.sealedAt < 0 {
+			if c.validN >= 0 && c.sealedAt < 0 {
 				c.sealedAt = c.peer.Len()
 			}
-			if c.poisoned && !c.ended && !c.endJudged {
-				c.endJudged = true
-				v("bad-goaway-not-conn-error", "conn %d: %s, but the client still has the connection open at quiescence (GOAWAY ids so far %v)", c.idx, c.poisonWhy, c.goaways)
+			if c.poisoned {
+				if c.ended {
+					res.counters["invalid_goaway_tore_connection_down"]++
+				} else {
+					v(c.poisonKey, "conn %d: %s, but the client still has the connection open at quiescence (GOAWAY ids so far %v)", c.idx, c.poisonWhy, c.goaways)
+					res.counters["invalid_goaway_ignored_by_client"]++
+				}
+				// From here on the connection is served again as if the invalid frame had
+				// not been sent (that is how a client that did not tear it down behaves).
+				c.poisoned = false
 			}
 			if c.ended && len(c.goaways) == 0 && !c.endJudged {
 				c.endJudged = true
@@ -301,10 +317,10 @@ func runClient(sc ascenario) *result {
 		ingest() // use what the reader has logged so far (racing streams may be missing: that is the point)
 		lo := c.maxTouched
 		var id uint32
-		first := len(c.goaways) == 0
+		first := c.validN < 0 // no valid GOAWAY so far (ignored invalid ones do not count)
 		prev := uint32(0)
 		if !first {
-			prev = c.goaways[len(c.goaways)-1]
+			prev = uint32(c.validN)
 		}
 		switch variant {
 		case "zero":
@@ -365,10 +381,10 @@ func runClient(sc ascenario) *result {
 		// classify from the statement, not from the variant name
 		switch {
 		case id != 0 && id%2 == 0:
-			c.poisoned, c.poisonWhy = true, fmt.Sprintf("GOAWAY with the even non-zero last-stream-id %d was sent", id)
+			c.poisoned, c.hadInvalid, c.poisonKey, c.poisonWhy = true, true, "goaway-even-id-not-conn-error", fmt.Sprintf("GOAWAY with the even non-zero last-stream-id %d was sent, which must tear the connection down", id)
 			variants["even"] = true
 		case !first && id > prev:
-			c.poisoned, c.poisonWhy = true, fmt.Sprintf("GOAWAY(%d) was sent after GOAWAY(%d): a larger id is a connection error", id, prev)
+			c.poisoned, c.hadInvalid, c.poisonKey, c.poisonWhy = true, true, "goaway-larger-id-not-conn-error", fmt.Sprintf("GOAWAY(%d) was sent after GOAWAY(%d): a larger id is a connection error", id, prev)
 			variants["larger"] = true
 		default:
 			if id < lo { // never declare unprocessed what the script already answered
@@ -447,8 +463,10 @@ func runClient(sc ascenario) *result {
 		startRPC(next)
 		next++
 	}
-	for round := 0; round < 40; round++ {
-		time.Sleep(time.Second) // lets reconnect back-off timers of the channel elapse
+	// ends when every RPC has returned, or after 5 consecutive rounds (5 virtual
+	// seconds each preceded by exact quiescence) in which nothing was left to answer
+	for round, idle := 0, 0; round < 400 && idle < 5; round++ {
+		time.Sleep(time.Second) // lets timers of the channel (re-dial) elapse
 		quiesce()
 		did := false
 		for _, c := range snapshot() {
@@ -461,15 +479,17 @@ func runClient(sc ascenario) *result {
 			}
 		}
 		if did {
+			idle = 0
 			continue
 		}
+		idle++
 		mu.Lock()
 		all := true
 		for _, r := range rpcs {
 			all = all && r.finished
 		}
 		mu.Unlock()
-		if all || round >= 12 {
+		if all {
 			break
 		}
 	}
@@ -484,7 +504,7 @@ func runClient(sc ascenario) *result {
 		onPoisoned := false
 		for _, a := range r.attempts {
 			c := cs[a.conn]
-			if c.poisoned {
+			if c.hadInvalid {
 				onPoisoned = true
 			}
 			if accepted(c, a.id) {
@@ -533,7 +553,7 @@ func runClient(sc ascenario) *result {
 		case codes.Unavailable:
 			unavailable++
 			for _, a := range acc {
-				if c := cs[a.conn]; !c.poisoned && a.completed {
+				if c := cs[a.conn]; !c.hadInvalid && a.completed {
 					v("accepted-stream-failed", "rpc %d failed with %q although its stream %d on conn %d is not above the GOAWAY id(s) %v and the scripted server completed it with OK: %s", r.idx, r.errText, a.id, a.conn, c.goaways, desc())
 				}
 			}
@@ -559,7 +579,7 @@ func runClient(sc ascenario) *result {
 	res.counters["connections"] = int64(len(cs))
 	poisoned := int64(0)
 	for _, c := range cs {
-		if c.poisoned {
+		if c.hadInvalid {
 			poisoned++
 		}
 	}
